@@ -988,7 +988,7 @@ MUTANTS = [
     _m("polyhedron-offset-by-nodes", "            # Update offset\n            nodes_offset += grid.num_nodes\n            cell_offset += grid.num_cells\n\n        # Initialize the meshio data structure for the connectivity and cell ids.\n        meshio_cells = list()",
        "            # Update offset\n            nodes_offset += grid.num_nodes\n            cell_offset += grid.num_nodes\n\n        # Initialize the meshio data structure for the connectivity and cell ids.\n        meshio_cells = list()", "R3"),
     _m("0d-offset-dropped", "            nodes_offset += 1\n            cell_offset += grid.num_cells\n", "            nodes_offset += 1\n", "R3"),
-    _m("reader-ravel-F", "            return np.ravel(value, \"C\")\n", "            return np.ravel(value, \"F\")\n", "R4", control=True),
+    _m("reader-ravel-F", "            return np.ravel(value, \"C\")\n", "            return np.ravel(value, \"F\")\n", "R4"),
     _m("writer-reshape-C", "                value = np.reshape(value, (-1, num_dofs), order=\"F\")\n", "                value = np.reshape(value, (-1, num_dofs), order=\"C\")\n", "R4"),
     _m("write-2d-without-transpose", "                    cell_data[field.name].append(field.values[:, ids].T)\n", "                    cell_data[field.name].append(field.values[:, ids])\n", "R4"),
     _m("json-key-dt-renamed-on-write", '{"time": self.exported_times, "dt": self.exported_dt}', '{"time": self.exported_times, "step": self.exported_dt}', "R5", file=TSC),
